@@ -111,17 +111,36 @@ Verdict run_case(Choices& c, CaseLog& log)
             return log.fail("exception during transport: " + r.error);
         if (!r.completed)
         {
-            // candidate non-termination: judge only obvious livelocks
-            std::map<unsigned, long> per;
+            // candidate non-termination: judge only obvious livelocks, i.e.
+            // a track whose last 2000 steps changed neither its position nor
+            // its energy (slow progress with a small step limiter in a thin
+            // medium is an expensive case, not a violation)
+            std::map<unsigned, std::vector<StepRec const*>> per;
             for (auto const& s : w.rec->steps)
-                ++per[s.track];
-            long worst = 0;
+                per[s.track].push_back(&s);
             for (auto const& kv : per)
-                worst = std::max(worst, kv.second);
-            if (worst > 20000)
-                return log.fail("event does not terminate: one track has "
-                                "taken "
-                                + std::to_string(worst) + " steps");
+            {
+                auto const& st = kv.second;
+                if (st.size() < 4000)
+                    continue;
+                bool frozen = true;
+                StepRec const& last = *st.back();
+                for (size_t k = st.size() - 2000; k < st.size() && frozen; ++k)
+                {
+                    StepRec const& r = *st[k];
+                    frozen = r.length == 0 && r.post.energy == last.post.energy
+                             && r.pre.energy == last.post.energy;
+                    for (int a = 0; a < 3; ++a)
+                        frozen = frozen && r.post.pos[a] == last.post.pos[a];
+                }
+                if (frozen)
+                    return log.fail(
+                        "event does not terminate: track "
+                        + std::to_string(kv.first) + " has taken "
+                        + std::to_string(st.size())
+                        + " steps, the last 2000 without moving or losing "
+                          "energy");
+            }
             log.label("budget-exhausted");
             return Verdict::trivial;
         }
@@ -263,7 +282,13 @@ Verdict run_case(Choices& c, CaseLog& log)
                                 + " delivers steps but was never seen in a "
                                   "slot");
             TrackLog const& t = tk.second;
-            for (size_t k = 0; k < t.steps.size(); ++k)
+            // (a track that cannot be initialised is killed without a step
+            // and delivers one zero-length record with step count 0)
+            bool killed_at_init = t.steps.size() == 1
+                                  && t.steps[0]->step_count == 0
+                                  && t.steps[0]->length == 0
+                                  && t.steps[0]->pre.volume < 0;
+            for (size_t k = 0; k < t.steps.size() && !killed_at_init; ++k)
                 if (t.steps[k]->step_count != k + 1)
                     return log.fail("track " + std::to_string(tk.first)
                                     + ": step counts not consecutive");
